@@ -1,0 +1,25 @@
+//go:build verif
+
+// Contracts of this package for the deductive verifier in /verif (vcgo).
+// Comment-only; compiled only with -tags verif.
+
+package backoff
+
+// Retrying (C18): with retries == 0 the backoff never gives up (the upstream
+// listener's reconnect loop uses 0), otherwise it gives up exactly after
+// retries+1 attempts; an attempt is counted only when one is granted.
+
+//@ extern math/rand.Float64
+
+//@ contract New
+//@   serves C18
+//@   ensures[fields] result != nil && fresh(result) && result.retries == retries && result.minBackoff == minBackoff && result.maxBackoff == maxBackoff && result.attempts == 0 && result.lastBackoff == 0
+
+//@ contract (*Backoff).Backoff
+//@   serves C18
+//@   modifies b.attempts, b.lastBackoff
+//@   ensures[never-gives-up-when-unlimited] b.retries == 0 ==> result1
+//@   ensures[bounded] b.retries != 0 ==> result1 == (old(b.attempts) <= b.retries)
+//@   ensures[counts] result1 ==> b.attempts == old(b.attempts) + 1
+//@   ensures[gave-up] !result1 ==> result0 == 0 && b.attempts == old(b.attempts) && b.lastBackoff == old(b.lastBackoff)
+//@   ensures[remembered] result1 ==> b.lastBackoff == result0
